@@ -8,7 +8,7 @@ rsync -a --exclude .git /repo/ "$D/"
 set +e
 VERIF_REPO="$D" /verif/check "$PROP" --tier "$TIER" > "$D.out" 2>&1
 RC=$?
-grep -E "^(VIOLATION|KNOWN-FINDING|OK|MACHINERY|  failing clause)" "$D.out" | cut -c1-260 | head -8
+grep -E "^(VIOLATION|KNOWN-FINDING|EXTENDED|OK|MACHINERY|  failing clause)" "$D.out" | cut -c1-260 | head -8
 echo "rc=$RC"
 rm -rf "$D" "$D.out"
 exit 0
